@@ -78,6 +78,17 @@ Json gen(sim::Rng& rng, int tier)
     p["faults"] = f;
     // shutdown of the endpoint in the middle of the load (every request then carries a time-out)
     p["shutdown_at_us"] = rng.chance(0.2) ? static_cast<int>(rng.below(6000)) : -1;
+    // an idle gap: the endpoint's read time-outs are a second or two, and some requests are issued only after the pooled
+    // connections have been idle for longer than that - the server has answered the silence with 408 and closed them (what
+    // Pistache's own endpoint, and many proxies, do to idle keep-alive connections); the requests that follow must be
+    // fulfilled with their own responses all the same
+    if (p.num("shutdown_at_us", -1) < 0 && rng.chance(0.12)) {
+        int T = static_cast<int>(1000 + rng.below(1500));
+        p["server_timeout_ms"] = T;
+        for (auto& iss : p["issuers"].a)
+            for (size_t k = 1; k < iss.a.size(); ++k)
+                if (rng.chance(0.5)) iss.a[k]["issue_delay_us"] = (T + 700 + static_cast<int>(rng.below(1500))) * 1000;
+    }
     // two endpoints ("hosts") behind the one client in part of the runs; when one of them is shut down in the middle of the
     // load the other one goes on, and every request addressed to it must still be fulfilled
     if (rng.chance(0.3)) {
@@ -178,6 +189,10 @@ void run(const Json& plan)
     o.port = port;
     o.max_req = 16384;
     o.app_delay_ns = plan.num("app_delay_us", 0) * 1000;
+    if (plan.num("server_timeout_ms", 0) > 0) {
+        o.header_timeout_ms = o.body_timeout_ms = std::max<i64>(500, std::min<i64>(plan.num("server_timeout_ms", 0), 10000));
+        r.probe("idle-gap-beyond-the-servers-time-out");
+    }
     w.start(o);
     if (two_hosts) {
         httpw::Opts o2 = o;
